@@ -230,3 +230,53 @@ def grouping_degree_on_shared_node(case, v):
         if any(m not in perm for m in g['members']):
             return True
     return False
+
+
+def _option_with_other_deriver(spec):
+    """Some option node of a selection choice is also derived in another way (derivation in-edge or option of another
+    choice)"""
+    n_in = {}
+    for u, w in spec.get('edges', []):
+        n_in[w] = n_in.get(w, 0)+1
+    n_opt = {}
+    for c in spec.get('choices', []):
+        for o in c['opts']:
+            n_opt[o] = n_opt.get(o, 0)+1
+    return any(n_opt[o] > 1 or n_in.get(o, 0) > 0 for o in n_opt)
+
+
+def influence_matrix_shared_option(case, v):
+    """KF01 seen through the processor: with an option node that is also derived another way the influence-matrix analysis
+    mis-tracks node existence / choice activation: RuntimeError('Unexpected inactive choice' | 'Des var node not found!' |
+    'Connection choice not does not exist!'), architectures missing from the enumeration, wrong activeness"""
+    spec = _spec(case)
+    if not _option_with_other_deriver(spec):
+        return False
+    msg = _msg(v)
+    if v['kind'] in ('decode_failed', 'row_decode_failed', 'redecode_failed'):
+        return any(t in msg for t in ('Unexpected inactive choice', 'Des var node not found', 'Connection choice not does',
+                                      'Infeasible graph specified'))
+    return True
+
+
+def complete_no_scenario_after_incompatibility(case, v):
+    """KF14: COMPLETE analyzer: an option whose forced consequences are incompatible leaves a choice scenario without
+    combinations: IndexError in _get_n_combinations (e.g. c0:n0->{n1,n2}, c1:n1->{n2}, incompatibility n1-n2)"""
+    return bool(_spec(case).get('incompat')) and '_get_n_combinations' in v.get('sig', '')
+
+
+def initial_graph_infeasible_conditional_target(case, v):
+    """KF15: the feasibility test of a graph whose connection choice lost all its sources judges the remaining target
+    connectors by degree only, also when the target exists conditionally: GraphProcessor rejects the graph as 'not feasible
+    to begin with' although architectures without that target exist"""
+    spec = _spec(case)
+    return bool(spec.get('conns')) and 'not feasible to begin with' in _msg(v)
+
+
+def fast_zero_option_choice(case, v):
+    """KF16: FAST encoder multiplies the option counts of all selection choices as the number of combinations; a
+    (conditionally active) choice whose options were all removed by incompatibilities makes it 0 and construction fails with
+    'There are no feasible graphs to begin with!'"""
+    spec = _spec(case)
+    enc = case.get('enc') or case.get('mode') or _d(v).get('enc')
+    return enc == 'FAST' and bool(spec.get('incompat')) and 'There are no feasible graphs' in _msg(v)
